@@ -53,6 +53,8 @@ def mutants(prog):
         ("apply_transform: same-domain shortcut", G, "Grid.apply_transform", "if to_grid is not None and to_grid != self or axes is not to_axes:", "if to_grid is not None and (not self.same_domain_as(to_grid)) or axes is not to_axes:", "T1.two-grids"),
         ("transform: internal float size", G, "Grid.transform", "half_size = 0.5 * self.size_tensor()", "half_size = 0.5 * self._size", "fractional-size"),
         ("origin_: internal float size", G, "Grid.origin_", "size = self.size_tensor()", "size = self._size", "fractional-size"),
+        ("cube_extent: internal float size", G, "Grid.cube_extent", "n = self.size_tensor()", "n = self._size", "T1."),
+        ("cube_to_world: explicit False treated as None", G, "Grid.cube_to_world", "if align_corners is None:\n        align_corners = self._align_corners\n    axes = Axes.from_align_corners(align_corners)", "axes = Axes.from_align_corners(align_corners or self._align_corners)", "T1.apply"),
     ]
     for name, mod, fn, old, new, expect in specs:
         ov = source_sub(prog, mod, fn, old, new)
